@@ -130,7 +130,11 @@ func printSupplied(f *flat, p string, it fitem, extended bool, raw bool) {
 	f.s(p+".kind", kindNames[it.kind])
 	switch it.kind {
 	case kUID:
-		f.n(p+".uid", it.uid)
+		if raw && it.uid == 0 {
+			f.s(p+".uid", "1000+position")
+		} else {
+			f.n(p+".uid", it.uid)
+		}
 	case kFlags:
 		printFlags(f, p+".flags", it.flags)
 	case kDate:
@@ -175,7 +179,7 @@ func printSupplied(f *flat, p string, it fitem, extended bool, raw bool) {
 }
 
 // printDelivered flattens an item the client delivered.
-func printDelivered(f *flat, p string, item imapclient.FetchItemData) {
+func printDelivered(f *flat, p string, item imapclient.FetchItemData, on *int32) {
 	readLit := func(lit imap.LiteralReader) {
 		if lit == nil {
 			f.s(p+".literal", "nil")
@@ -185,8 +189,10 @@ func printDelivered(f *flat, p string, item imapclient.FetchItemData) {
 		if err != nil {
 			f.s(p+".literal.error", err.Error())
 		}
-		atomic.AddInt64(&litCount, 1)
-		atomic.AddInt64(&litBytes, int64(len(b)))
+		if atomic.LoadInt32(on) != 0 {
+			atomic.AddInt64(&litCount, 1)
+			atomic.AddInt64(&litBytes, int64(len(b)))
+		}
 		if int64(len(b)) != lit.Size() {
 			f.s(p+".literal.size-mismatch", fmt.Sprintf("Size()=%d read=%d", lit.Size(), len(b)))
 		}
@@ -229,7 +235,8 @@ func printDelivered(f *flat, p string, item imapclient.FetchItemData) {
 	}
 }
 
-// non-vacuity counters
+// non-vacuity counters; they count first executions only (conn.counting), because which cases are
+// re-run for pinpointing depends on scheduling and the evidence must not
 var litCount, litBytes, msgCount, uniCount int64
 
 type gotMsg struct {
@@ -237,7 +244,7 @@ type gotMsg struct {
 	f   []kv
 }
 
-func drainMessage(msg *imapclient.FetchMessageData) gotMsg {
+func drainMessage(msg *imapclient.FetchMessageData, on *int32) gotMsg {
 	var f flat
 	f.n("seq", msg.SeqNum)
 	k := 0
@@ -246,11 +253,13 @@ func drainMessage(msg *imapclient.FetchMessageData) gotMsg {
 		if item == nil {
 			break
 		}
-		printDelivered(&f, fmt.Sprintf("item[%d]", k), item)
+		printDelivered(&f, fmt.Sprintf("item[%d]", k), item, on)
 		k++
 	}
 	f.n("items", k)
-	atomic.AddInt64(&msgCount, 1)
+	if atomic.LoadInt32(on) != 0 {
+		atomic.AddInt64(&msgCount, 1)
+	}
 	return gotMsg{msg.SeqNum, f.l}
 }
 
@@ -483,7 +492,7 @@ func execFetch(cn *conn, cases []*fetchCase) []outcome {
 			if msg == nil {
 				break
 			}
-			got = append(got, drainMessage(msg).f)
+			got = append(got, drainMessage(msg, &cn.counting).f)
 		}
 		cmdErr = cmd.Close()
 	}
@@ -524,6 +533,7 @@ func execFetch(cn *conn, cases []*fetchCase) []outcome {
 		case cmdErr != nil && i == len(got) && (i == 0 || outs[i-1].OK):
 			outs[i] = cn.compare("fetch", exp, nil, cmdErr, extra)
 		case cmdErr != nil:
+			cn.account(exp, false)
 			outs[i] = outcome{NotRun: true, Key: "fetch:not-run"}
 		default:
 			outs[i] = outcome{Key: "fetch:message-not-delivered", Detail: map[string]interface{}{"expected": kvString(exp), "delivered_messages": len(got)}}
